@@ -108,6 +108,11 @@ def generate(ck):
             # the lower end of a table that starts at zero gauge / absolute pressure (np.linspace(0, ...)):
             # every one of these correlations is finite at p = 0 when called with the scalar
             p[int(rng.integers(0, length))] = 0.0
+        if length >= 3 and rng.random() < 0.3:
+            # the same pressure more than once (flat ends of a drawdown profile, two stacked tables):
+            # every occurrence is an element like any other
+            for _ in range(int(rng.integers(1, 4))):
+                p[int(rng.integers(0, length))] = p[int(rng.integers(0, length))]
         if dtype in ("i8", "i4"):
             p = np.round(p)
             if length >= 2 and fn in OILY:
@@ -131,6 +136,7 @@ def generate(ck):
                 "ppc": ppc,
                 "pressures": [wl.f(v) for v in p],
                 "contains_pb": with_pb,
+                "kw": bool(rng.random() < 0.3),
                 "threads": [wl.oil_params(rng) for _ in range(3)] if i % 90 == 17 else None,
             }
         )
@@ -174,22 +180,42 @@ def _callables(desc):
     sal, Tw = desc["salinity"], desc["water_T"]
     if desc["int_temperature"]:
         Tw = int(round(Tw))
+    def both(g, *args):
+        """args with None where the pressure goes; positional, or - for desc['kw'] - every argument by
+        keyword under the function's own parameter names (the calling convention is not part of the input)."""
+        k = args.index(None)
+        if desc.get("kw"):
+            import inspect
+
+            names = list(inspect.signature(g).parameters)[: len(args)]
+            call = lambda x: g(**{n: (x if i == k else a) for i, (n, a) in enumerate(zip(names, args))})  # noqa: E731
+        else:
+            call = lambda x: g(*[x if i == k else a for i, a in enumerate(args)])  # noqa: E731
+        return call, (lambda x: g(*[x if i == k else a for i, a in enumerate(args)]))
+
     if fn in ("b_o_Standing", "solution_gor_Standing", "oil_compressibility_undersat_Spivey"):
-        g = getattr(oil, fn)
-        return (lambda p: g(T, p, api, gg, gor)), (lambda x: g(T, x, api, gg, gor))
+        return both(getattr(oil, fn), T, None, api, gg, gor)
     if fn in ("b_water_McCain", "b_water_McCain_dp"):
-        g = getattr(water, fn)
-        return (lambda p: g(Tw, p)), (lambda x: g(Tw, x))
+        return both(getattr(water, fn), Tw, None)
     if fn in ("compressibility_water_McCain", "density_water_McCain", "viscosity_water_McCain"):
-        g = getattr(water, fn)
-        return (lambda p: g(Tw, p, sal)), (lambda x: g(Tw, x, sal))
+        return both(getattr(water, fn), Tw, None, sal)
     fl = Fluid(T if fn.startswith("Fluid.oil") else Tw, api, gg, gor, salinity=sal)
     m = getattr(fl, fn.split(".")[1])
     if fn.startswith("Fluid.gas"):
         Tpc, ppc = desc["Tpc"], desc["ppc"]
         fl = Fluid(max(T, 100.0), api, gg, gor, salinity=sal)
         m = getattr(fl, fn.split(".")[1])
+        if desc.get("kw"):
+            import inspect
+
+            n0, n1, n2 = list(inspect.signature(m).parameters)[:3]
+            return (lambda p: m(**{n0: p, n1: Tpc, n2: ppc})), (lambda x: m(np.array([x], dtype="f8"), Tpc, ppc)[0])
         return (lambda p: m(p, Tpc, ppc)), (lambda x: m(np.array([x], dtype="f8"), Tpc, ppc)[0])
+    if desc.get("kw"):
+        import inspect
+
+        n0 = list(inspect.signature(m).parameters)[0]
+        return (lambda p: m(**{n0: p})), (lambda x: np.asarray(m(np.array([x], dtype="f8"))).reshape(-1)[0])
     return (lambda p: m(p)), (lambda x: np.asarray(m(np.array([x], dtype="f8"))).reshape(-1)[0])
 
 
